@@ -158,7 +158,11 @@ class Builder:
                 ft = mdl.fields.get(k) if mdl is not None else None
                 if isinstance(ft, tuple):
                     ft = ft[0]
-                if isinstance(ft, C.Callback):
+                if isinstance(ft, C.Opt) and isinstance(v, dict) and '__callback__' in v:
+                    ft = ft.t
+                if isinstance(ft, C.Callback) and (not isinstance(v, dict) or '__callback__' in v):
+                    val = self.callback(ft) if v is not None else None
+                elif isinstance(ft, C.Callback):
                     val = self.callback(ft)
                 elif isinstance(v, dict) and '__map__' in v and isinstance(ft, C.MapOf):
                     val = self.build_map(v['__map__'], ft)
@@ -282,6 +286,19 @@ def run_native(top, registry, state, extra_check=None):
 
         patches.append((owner, attr, orig))
         setattr(owner, attr, mk(orig, c2))
+    import signal
+
+    class ReplayTimeout(Exception):
+        pass
+
+    def _alarm(signum, frame):
+        raise ReplayTimeout()
+
+    try:
+        signal.signal(signal.SIGALRM, _alarm)
+        signal.setitimer(signal.ITIMER_REAL, 10.0)
+    except (ValueError, OSError):
+        pass
     try:
         if is_lemma:
             fn = top.fn
@@ -299,7 +316,24 @@ def run_native(top, registry, state, extra_check=None):
             else:
                 res = fn(**kwargs)
         if inspect.iscoroutine(res):
-            res = asyncio.run(res)
+            wait_s = getattr(top, 'extra', {}).get('native_run_for')
+            if wait_s:
+                # a task that never returns by design (pump loops): run it until it blocks
+                async def _bounded(coro):
+                    t = asyncio.ensure_future(coro)
+                    await asyncio.wait([t], timeout=wait_s)
+                    if not t.done():
+                        t.cancel()
+                        try:
+                            await t
+                        except BaseException:  # noqa: BLE001
+                            pass
+                        return None
+                    return t.result()
+
+                res = asyncio.run(_bounded(res))
+            else:
+                res = asyncio.run(res)
     except AssertionError as e:
         tb = traceback.extract_tb(e.__traceback__)[-1]
         if is_lemma:
@@ -309,8 +343,14 @@ def run_native(top, registry, state, extra_check=None):
     except Exception as e:  # noqa: BLE001
         exc = e
     finally:
+        try:
+            signal.setitimer(signal.ITIMER_REAL, 0)
+        except (ValueError, OSError):
+            pass
         for owner, attr, orig in patches:
             setattr(owner, attr, orig)
+    if type(exc).__name__ == 'ReplayTimeout':
+        return {'outcome': 'error', 'detail': 'native run exceeded 10 s (possible busy loop)'}
     env2 = dict(env)
     env2['old'] = old
     failed = list(rec.violations)
